@@ -110,6 +110,8 @@ pub struct Hx {
     pub len: u64,
     /// operations that were invoked but never returned (the run ended abnormally)
     pub unreturned: Vec<(usize, usize, Op, u64)>,
+    /// (sequence number, simulated clock) of every clock-bearing item, in log order
+    pub clocks: Vec<(u64, Dur)>,
 }
 
 pub fn key_of_token(v: u64) -> u32 {
@@ -124,6 +126,7 @@ impl Hx {
             let s = s as u64;
             match item {
                 Item::Invoke { t, i, op, clock } => {
+                    hx.clocks.push((s, *clock));
                     open.insert((*t, *i), (op.clone(), s, *clock));
                     if op.is_write() {
                         let key = op.key().unwrap();
@@ -153,6 +156,7 @@ impl Hx {
                     }
                 }
                 Item::Return { t, i, res, clock } => {
+                    hx.clocks.push((s, *clock));
                     let (op, inv, clock_inv) = match open.remove(&(*t, *i)) {
                         Some(x) => x,
                         None => continue,
@@ -244,6 +248,28 @@ impl Hx {
         }
         hx.unreturned.sort_by_key(|x| x.3);
         hx
+    }
+
+    /// Lower bound of the simulated clock at `seq` (valid while the clock never moves backwards):
+    /// the clock recorded by the last clock-bearing item at or before `seq`.
+    pub fn clock_lo(&self, seq: u64) -> Dur {
+        let pos = self.clocks.partition_point(|c| c.0 <= seq);
+        if pos == 0 {
+            self.clocks.first().map(|c| c.1).unwrap_or_default()
+        } else {
+            self.clocks[pos - 1].1
+        }
+    }
+
+    /// Upper bound of the simulated clock at `seq`: the clock recorded by the first clock-bearing
+    /// item at or after `seq` (the last one if there is none).
+    pub fn clock_hi(&self, seq: u64) -> Dur {
+        let pos = self.clocks.partition_point(|c| c.0 < seq);
+        if pos >= self.clocks.len() {
+            self.clocks.last().map(|c| c.1).unwrap_or_default()
+        } else {
+            self.clocks[pos].1
+        }
     }
 
     pub fn phase_seq(&self, name: &str) -> Option<u64> {
